@@ -604,7 +604,7 @@ func c41StartDefaultDeadline(t *testing.T) *c41BG {
 func (b *c41BG) finish() (hung int) {
 	for k, sv := range b.svs {
 		id := k + 1
-		limit := sv.start.Add(defaultSurveyTimeout + 3*time.Second)
+		limit := sv.start.Add(defaultSurveyTimeout + 20*time.Second)
 		var r c41Result
 		got := false
 		select {
@@ -630,7 +630,7 @@ func (b *c41BG) finish() (hung int) {
 				xs[i] = vPair(vN(p[0]), vN(p[1]))
 			}
 			// not before the default deadline (nothing else can end these surveys), and soon after it
-			prompt := elapsed >= defaultSurveyTimeout-200*time.Millisecond && elapsed <= defaultSurveyTimeout+3*time.Second
+			prompt := elapsed >= defaultSurveyTimeout-200*time.Millisecond && elapsed <= defaultSurveyTimeout+20*time.Second
 			b.log(c41Ev{K: "return", ID: id, Res: res, Err: r.err != nil, Prompt: prompt, V: uint64(elapsed / time.Millisecond)},
 				vApp("SReturn", vNat(id), vList(xs), vBool(r.err != nil), vBool(prompt)))
 		} else {
